@@ -39,7 +39,7 @@ def run(ctx):
             raise vlib.Inconclusive("negative control failed: the single-Read peek model does not violate ApisAgree")
         ctx.notes.append("negative control: MCEnvelope with a single-Read peek violates ApisAgree (as expected)")
         cases = vlib.gen_cases(ctx, "MCEnvelopeGen", "MCEnvelopeGen_%s.cfg" % tier, timeout=900)
-        nrand, damage = (1500, 2) if ctx.quick() else (60000, -1)
+        nrand, damage = (1500, 2) if ctx.quick() else (12000, 4)      # (every damaged variant of 60000 random envelopes wrote > 100 GB)
     obs = os.path.join(ctx.dir("obs"), "obs.ndjson")
     vlib.run([drv, "c12", "-cases", cases, "-random", str(nrand), "-damage", str(damage),
               "-seed", str(ctx.seed), "-out", obs], timeout=3000, check=True)
